@@ -47,7 +47,7 @@ def gen_layout(rng, focus, rich=True):
         lay['blocked_gpus'] = [rng.randrange(gpn)]
     if focus == 'sched':
         lay['spawner'] = 'STUB'
-    elif focus in ('full', 'exec') and rng.random() < 0.1:
+    elif focus in ('full', 'exec') and rng.random() < 0.12:
         lay['spawner'] = 'NOOP'
     return lay
 
@@ -594,6 +594,7 @@ def run(seed, sc, trace=None, tier='quick'):
     pre = None
     if sc.get('preempt'):
         pre = (('executing/popen.py', 'executing/base.py',
+                'executing/noop.py',
                 'scheduler/base.py', 'scheduler/continuous.py'),
                sc['preempt'])
     res = C.run_world(seed, build, trace=trace, tmp=True,
